@@ -123,7 +123,7 @@ def _one_variant(args):
 
 def run_selftest(ctx, prop, seed):
     """thorough tier: false-alarm self-test.  Every function of every module this check consulted is rewritten in
-    eight behaviour-preserving ways (hsverify/selftest.py); the check must not report anything on a variant that it
+    ten behaviour-preserving ways (hsverify/selftest.py); the check must not report anything on a variant that it
     does not report on the tree itself."""
     from hsverify import selftest
     from multiprocessing import Pool
@@ -136,7 +136,7 @@ def run_selftest(ctx, prop, seed):
             text = m.mod(modname).text
         except model.AnalysisError:
             continue
-        for label, src in selftest.variants(modname, text, ['T1', 'T2', 'T3', 'T4', 'T5', 'T6', 'T7', 'T8']):
+        for label, src in selftest.variants(modname, text, ['T1', 'T2', 'T3', 'T4', 'T5', 'T6', 'T7', 'T8', 'T9', 'T10']):
             jobs.append((prop, modname, src, seed))
             labels.append(label)
     if not jobs:
